@@ -485,17 +485,22 @@ def run(ctx):
     if bad:
         raise HarnessError(f"totp reference fails its own vectors: {bad}")
     seed = ctx.seed
+    small = tuple(range(-3, 4))
     if ctx.quick:
         configs = [(20, "sha1", 6)]
-        periods, windows, skews, T = (1, 2, 3, 5), (0, 1, 2, 3, 5, 7), tuple(range(-3, 4)), 30
+        T = 30
+        axes = {p: ((0, 1, 2, 3, 5, 7), small) for p in (1, 2, 3, 5)}
     else:
         configs = [(20, "sha1", 6), (10, "sha256", 8), (64, "sha512", 10)]
-        periods, windows, skews, T = (1, 2, 3, 5, 7, 30), (0, 1, 2, 3, 5, 7, 30, 31), tuple(range(-3, 4)) + (-30, 31), 40
+        T = 40
+        # windows / skews beyond a few periods add no new alignment; the wide ones are crossed with period 30
+        axes = {p: ((0, 1, 2, 3, 5, 7, 15), small + (-8, 9)) for p in (1, 2, 3, 5, 7)}
+        axes[30] = ((0, 1, 2, 3, 5, 7, 15, 29, 30, 31, 45, 59, 60, 61), small + (-8, 9, -30, 31, -45))
     tasks = []
     for fam in ("hmac", "mod3"):
         for n, alg, digits in configs if fam == "hmac" else configs[:2]:
             key = filler(seed, n, b"key")
-            for period in periods:
+            for period, (windows, skews) in axes.items():
                 for window in windows:
                     for skew in skews:
                         for part in ("product", "forms"):
